@@ -207,8 +207,6 @@ def equipment_doc(draw, multiband=None, aliases=None, for_network=False):
     eq = draw(netgen.equipment(raman_fiber=True))
     for f in eq['Fiber']:
         f.pop('dispersion_slope', None)          # only an element parameter (not read by the library loader)
-    names = [e['type_variety'] for e in eq['Edfa']]
-    dual_refs = {e.get('preamp_variety') for e in eq['Edfa']} | {e.get('booster_variety') for e in eq['Edfa']}
     feats = set()
     # --- Edfa
     for e in eq['Edfa']:
